@@ -8,6 +8,7 @@ import (
 	"voicheck/econst"
 	"voicheck/edt"
 	"voicheck/elen"
+	"voicheck/elin"
 	"voicheck/load"
 	"voicheck/report"
 
@@ -249,11 +250,70 @@ func init() {
 		run.SetConfig(id)
 		cfg := &edt.Config{P: p, Mod: modFor(p)}
 		dt := run.Rule("DT-edwards", "Edwards decoders, canonicity test and subgroup predicates have exactly the specified decision structure and term structure", 70)
-		for _, s := range c10Specs() {
+		for _, s := range append(c10Specs(), setMontgomerySpec()) {
 			r := edt.Check(dt, cfg, s)
 			run.Sample(map[string]any{"function": s.Func, "paths": r.Paths, "feasible": r.Feasible, "classes": r.ClassCount})
 		}
 		errRulesFor(run, p, "curve")
 		econst.CheckNamed(run, p, "CONST", "curve.noncanonicalSignBits", "curve.constEDWARDS_D")
+		// "encoding is canonical" and "decoding ignores bit 255 / reduces mod p" rest on the byte<->limb
+		// conversions of the field back end: decided as affine identities in BOTH radices (E-LIN)
+		if c.Preload("purego", "f32") {
+			for _, id2 := range []string{"purego", "f32"} {
+				run.SetConfig(id2)
+				lr := elin.CheckField(run, c.Prog(id2), "LIN")
+				run.Sample(map[string]any{"config": id2, "LIN functions": lr.Functions, "LIN obligations": lr.Obligations})
+			}
+		}
+	}
+}
+
+// setMontgomerySpec: the birational map u -> y = (u-1)/(u+1) is refused exactly for the DECODED
+// value u = -1 (every encoding of it: decided on the field element, not on bytes), the sign goes to
+// bit 255 of the encoded y, and the result is whatever Edwards decompression says.
+func setMontgomerySpec() *edt.Spec {
+	const (
+		U = "Element.SetBytes($montgomeryU)"
+		y = "Element.Mul(Element.Invert(Element.Add(@internal/field.One, " + U + ")), Element.Sub(" + U + ", @internal/field.One))"
+		Y = "out1(Element.ToBytes(" + y + ", zero))"
+	)
+	return &edt.Spec{
+		Pkg: "curve", Func: "(*EdwardsPoint).SetMontgomery", Opaque: []string{"EdwardsPoint.SetCompressedY"}, MinPaths: 2,
+		Vars: map[string]string{"(Element.Equal(@internal/field.MinusOne, " + U + ") == 1)": "uIsMinusOne"},
+		Classify: func(p *edt.Path, out string, e *edt.Env) string {
+			switch {
+			case strings.HasPrefix(out, "nil ; err"):
+				return "refused"
+			case strings.HasPrefix(out, "ptr($p) ; err(EdwardsPoint.SetCompressedY("):
+				return "decoded"
+			}
+			return ""
+		},
+		Formula: map[string]func(e *edt.Env) edt.Tri{
+			"refused": func(e *edt.Env) edt.Tri { return e.V("uIsMinusOne") },
+			"decoded": func(e *edt.Env) edt.Tri { return edt.Not(e.V("uIsMinusOne")) },
+		},
+		Extra: func(p *edt.Path, out, class string, e *edt.Env, ab func(string) string) string {
+			if class == "refused" {
+				return noWritesBelow(p, "$p")
+			}
+			f, ok := p.Final["$p"]
+			if !ok || f.Op != "EdwardsPoint.SetCompressedY" || len(f.Args) == 0 {
+				return "the result is not produced by Edwards decompression"
+			}
+			enc := f.Args[len(f.Args)-1]
+			if enc.Op != "upd" || len(enc.Args) != 2 || normComm(enc.Args[0].String()) != normComm(Y) {
+				return "the decompressed string is not the canonical encoding of y = (u-1)/(u+1) with only byte 31 modified: " + clip(enc.String(), 300)
+			}
+			b31 := enc.Sub("[31]")
+			if b31 == nil {
+				return "the sign is not placed in byte 31"
+			}
+			want := cb("^", "($sign << 7)", "sel("+Y+", [31])")
+			if normComm(b31.String()) != normComm(want) && b31.String() != want {
+				return "byte 31 must be y's byte 31 xor (sign << 7): got " + clip(b31.String(), 200)
+			}
+			return ""
+		},
 	}
 }
